@@ -7,27 +7,65 @@
    must fail); "unspecified" when the case is outside the documented format LD.wf_format.
    Both go through the same printer [show_view]; only the sources of the observations differ.
    Stream `tables`: per-edge tables.
-   Distances and coordinates are printed as integers (the harness writes values k/4 and compares 4x). *)
+   Distances are printed as integers (the harness writes values k/4 and compares 4x); coordinates enter as
+   exact decimals (digits, k) and are rounded to binary32 by [round_b32]. *)
 From Coq Require Import ZArith List String Bool Arith.
 From RC Require Import Base.Show Base.Res Model.CompactMap Model.Loader.
 Import ListNotations.
 Open Scope string_scope.
 
 Notation edge := (LD.edge Z).
-Notation vertex := (LD.vertex Z).
-Notation graph := (LD.graph Z Z).
+(* a coordinate is carried as the canonical text of the binary32 value the decimal of the file denotes *)
+Notation vertex := (LD.vertex string).
+Notation graph := (LD.graph Z string).
+
+(* ---- decimal text -> binary32, exactly ----
+   "each vertex has the listed coordinates": the coordinate written as the decimal digits * 10^(-k) is
+   loaded as the NEAREST binary32 value, ties to even (what str::parse::<f32> specifies).  Computed here in
+   exact integer arithmetic; this function is part of the specification (trusted, small, and cross-checked on
+   every run against the implementation's parse on the unchanged tree: I = S).  Range: finite non-overflowing
+   values (|x| < 2^127), subnormals included. *)
+Definition round_b32 (digits k : Z) : bool * Z * Z :=       (* (negative, m, e): value = +-m * 2^e *)
+  let neg := Z.ltb digits 0 in
+  let a := Z.abs digits in
+  let d := (10 ^ k)%Z in
+  if Z.eqb a 0 then (neg, 0%Z, 0%Z) else
+  let e1 := (Z.log2 a - Z.log2 d - 24)%Z in
+  let q e := if Z.leb 0 e then (a / (d * 2 ^ e))%Z else ((a * 2 ^ (- e)) / d)%Z in
+  let e2 := if Z.leb (2 ^ 24) (q e1) then (e1 + 1)%Z else e1 in
+  let e := Z.max e2 (-149) in
+  let N := if Z.leb 0 e then a else (a * 2 ^ (- e))%Z in
+  let Dn := if Z.leb 0 e then (d * 2 ^ e)%Z else d in
+  let m := (N / Dn)%Z in
+  let r := (N mod Dn)%Z in
+  let m' := if Z.ltb Dn (2 * r) then (m + 1)%Z
+            else if Z.eqb (2 * r) Dn then (if Z.odd m then m + 1 else m)%Z else m in
+  (neg, m', e).
+
+(* printed as the harness prints an f32 widened to f64: 4x the value when that is an integer, else
+   f<sign><53-bit mantissa>p<exponent> *)
+Definition show_b32 (v : bool * Z * Z) : string :=
+  let '(neg, m, e) := v in
+  if Z.eqb m 0 then "0" else
+  let sgn := if neg then "-" else "" in
+  let e4 := (e + 2)%Z in
+  if Z.leb 0 e4 then sgn ++ show_Z (m * 2 ^ e4)
+  else if Z.eqb (m mod 2 ^ (- e4)) 0 then sgn ++ show_Z (m / 2 ^ (- e4))
+  else let s := (52 - Z.log2 m)%Z in
+       "f" ++ (if neg then "-" else "+") ++ show_Z (m * 2 ^ s) ++ "p" ++ show_Z (e - s).
+Definition coord (c : Z * Z) : string := show_b32 (round_b32 (fst c) (snd c)).
 
 Definition mk_edges (l : list (nat * nat * nat * Z)) : list edge :=
   map (fun r => let '(i, s, d, x) := r in LD.mkEdge i s d x) l.
-Definition mk_vertices (l : list (nat * Z * Z)) : list vertex :=
-  map (fun r => let '(i, x, y) := r in LD.mkVertex i x y) l.
+Definition mk_vertices (l : list (nat * (Z * Z) * (Z * Z))) : list vertex :=
+  map (fun r => let '(i, x, y) := r in LD.mkVertex i (coord x) (coord y)) l.
 
 (* ---- printers ---- *)
 Definition show_edge (e : edge) : string :=
   show_nat (LD.e_id e) ++ ":" ++ show_nat (LD.e_src e) ++ ">" ++ show_nat (LD.e_dst e)
   ++ "@" ++ show_Z (LD.e_dist e).
 Definition show_vertex (v : vertex) : string :=
-  show_nat (LD.v_id v) ++ "(" ++ show_Z (LD.v_x v) ++ "," ++ show_Z (LD.v_y v) ++ ")".
+  show_nat (LD.v_id v) ++ "(" ++ LD.v_x v ++ "," ++ LD.v_y v ++ ")".
 Definition sr {A} (f : A -> string) (r : res A) : string :=
   match r with
   | Ok a => f a
@@ -118,15 +156,15 @@ Definition view_of_rows (erows : list edge) (vrows : list vertex) : view :=
     (LD.s_triplet_attributes erows vrows)
     true.
 
-Definition mk_files (erows : list (nat * nat * nat * Z)) (vrows : list (nat * Z * Z)) (elines vlines : nat)
-  : LD.files Z Z := LD.mkFiles elines (mk_edges erows) vlines (mk_vertices vrows).
+Definition mk_files (erows : list (nat * nat * nat * Z)) (vrows : list (nat * (Z * Z) * (Z * Z))) (elines vlines : nat)
+  : LD.files Z string := LD.mkFiles elines (mk_edges erows) vlines (mk_vertices vrows).
 
-Definition line_m (id : Z) (erows : list (nat * nat * nat * Z)) (vrows : list (nat * Z * Z))
+Definition line_m (id : Z) (erows : list (nat * nat * nat * Z)) (vrows : list (nat * (Z * Z) * (Z * Z)))
     (elines vlines : nat) (ne nv : option nat) : string :=
   line "M" id (sr (fun g => show_view (view_of_graph g))
                   (LD.graph_from_files (mk_files erows vrows elines vlines) ne nv)).
 
-Definition line_s (id : Z) (erows : list (nat * nat * nat * Z)) (vrows : list (nat * Z * Z))
+Definition line_s (id : Z) (erows : list (nat * nat * nat * Z)) (vrows : list (nat * (Z * Z) * (Z * Z)))
     (elines vlines : nat) (ne nv : option nat) : string :=
   let f := mk_files erows vrows elines vlines in
   line "S" id (if LD.formatb f nv
